@@ -232,6 +232,11 @@ impl RecvWindow {
             Err(ErrorCode::InvalidData)?;
         }
 
+        // First validate the segment completely, and only then touch the reassembly state:
+        // a refused segment must not leave anything behind
+        let mut rem_msg_len = self.rem_msg_len;
+        let mut new_sdu_len = None;
+
         if let Some(msg_len) = hdr.get_msg_len() {
             // The segment size (`mtu`) covers the BTP header too, so an SDU fits in a single
             // segment only if there is room for it after this segment's header
@@ -240,37 +245,49 @@ impl RecvWindow {
                 Err(ErrorCode::InvalidData)?;
             }
 
-            self.rem_msg_len = msg_len;
+            if rem_msg_len > 0 {
+                warn!("RX data integrity failure: A new SDU begins before the previous one is complete");
+                Err(ErrorCode::InvalidData)?;
+            }
+
+            rem_msg_len = msg_len;
 
             if msg_len > 0 {
-                if self.buf.free() >= core::mem::size_of::<u16>() {
-                    // New SDU; skip 0-length ones as they do not contain Matter messages
-                    self.buf.push(&u16::to_le_bytes(msg_len));
-                } else {
-                    warn!("RX data integrity failure: got more data when the ring-buffer is full. Is the other party overflowing our recv window?");
-                    Err(ErrorCode::InvalidData)?;
-                }
+                // New SDU; skip 0-length ones as they do not contain Matter messages
+                new_sdu_len = Some(msg_len);
             }
         }
 
-        if self.rem_msg_len < payload.len() as u16 {
+        if rem_msg_len < payload.len() as u16 {
             warn!("RX data integrity failure: Packet contains more data than the message length");
             Err(ErrorCode::InvalidData)?;
         }
 
-        self.rem_msg_len -= payload.len() as u16;
-        if hdr.is_final() && self.rem_msg_len > 0 {
+        rem_msg_len -= payload.len() as u16;
+        if hdr.is_final() && rem_msg_len > 0 {
             warn!(
                 "RX data integrity failure: Packet is final but the message length is not reached"
             );
             Err(ErrorCode::InvalidData)?;
         }
 
-        if self.buf.free() < payload.len() {
+        let needed = payload.len()
+            + if new_sdu_len.is_some() {
+                core::mem::size_of::<u16>()
+            } else {
+                0
+            };
+
+        if self.buf.free() < needed {
             warn!("RX data integrity failure: got more data when the ring-buffer is full. Is the other party overflowing our recv window?");
             Err(ErrorCode::InvalidData)?;
         }
 
+        if let Some(msg_len) = new_sdu_len {
+            self.buf.push(&u16::to_le_bytes(msg_len));
+        }
+
+        self.rem_msg_len = rem_msg_len;
         self.buf.push(payload);
         self.level -= 1;
         // Unwrap is safe because we are only processing BTP data segments here and they always have a sequence number
